@@ -59,6 +59,13 @@ struct PolGetEvent : Pol<eventpp::ArgumentPassingIncludeEvent, UserMap, Hashed> 
 	static K getEvent(const Tracked & t) { long v = t.value; int id = (int)((v - 17) / 1000003L); return KeyOps<K>::make(v >= 0 && (v - 17) % 1000003L == 0 ? id % 3 : (id + 1) % 3); }
 };
 
+// getEvent policy that returns a reference to its first argument (a policy shape the detection idiom may or may not
+// honour; either way the event must be the first argument's value)
+template <typename K, bool UserMap, bool Hashed>
+struct PolGetEventRef : Pol<eventpp::ArgumentPassingIncludeEvent, UserMap, Hashed> {
+	static const K & getEvent(const K & k, const Tracked &) { return k; }
+};
+
 enum Cat { C_LVALUE, C_CONST, C_PRVALUE, C_MOVE, C_KEY_PRVALUE_PAYLOAD_LVALUE, C_KEY_LVALUE_PAYLOAD_MOVE, NCAT };
 static const char * catName(int c) { static const char * n[] = {"lvalues", "const lvalues", "prvalues", "std::move", "key prvalue + payload lvalue", "key lvalue + payload std::move"}; return n[c]; }
 
@@ -251,6 +258,7 @@ static void addQueueFamily(bool full) {
 	addCell<Cell<K, K, Tracked, Pol<ArgumentPassingAutoDetect, false, Hashed>, false, true> >(kn + "/key-by-value/payload-by-value/auto/default-map", dq, dt);
 	addCell<Cell<K, const K &, const Tracked &, Pol<ArgumentPassingIncludeEvent, true, Hashed>, false, true> >(kn + "/key-const-ref/payload-const-ref/include/user-map", dq, dt);
 	addCell<Cell<K, K, Tracked, PolGetEvent<K, false, Hashed>, true, true> >(kn + "/getEvent-policy/payload-by-value/default-map", dq, dt);
+	addCell<Cell<K, K, Tracked, PolGetEventRef<K, false, Hashed>, false, true> >(kn + "/getEvent-returning-reference/key-by-value/payload-by-value/default-map", dq, dt);
 	if(!full) return;
 	addCell<Cell<K, K, const Tracked &, Pol<ArgumentPassingExcludeEvent, false, Hashed>, false, true> >(kn + "/key-by-value/payload-const-ref/exclude/default-map", dq, dt);
 	addCell<Cell<K, const K &, Tracked, Pol<ArgumentPassingAutoDetect, true, Hashed>, false, true> >(kn + "/key-const-ref/payload-by-value/auto/user-map", dq, dt);
@@ -267,6 +275,7 @@ static void addKeyFamily(bool full) {
 	addCell<Cell<K, K, const Tracked &, Pol<ArgumentPassingIncludeEvent, false, Hashed>, false> >(kn + "/key-by-value/payload-const-ref/include/default-map", dq, dt);
 	addCell<Cell<K, const K &, Tracked, Pol<ArgumentPassingExcludeEvent, true, Hashed>, false> >(kn + "/key-const-ref/payload-by-value/exclude/user-map", dq, dt);
 	addCell<Cell<K, K, Tracked, PolGetEvent<K, false, Hashed>, true> >(kn + "/getEvent-policy/payload-by-value/default-map", dq, dt);
+	addCell<Cell<K, K, Tracked, PolGetEventRef<K, false, Hashed>, false> >(kn + "/getEvent-returning-reference/key-by-value/payload-by-value/default-map", dq, dt);
 	if(!full) return;
 	addCell<Cell<K, K, Tracked &, Pol<ArgumentPassingAutoDetect, true, Hashed>, false> >(kn + "/key-by-value/payload-mutable-ref/auto/user-map", dq, dt);
 	addCell<Cell<K, const K &, const Tracked &, Pol<ArgumentPassingAutoDetect, false, Hashed>, false> >(kn + "/key-const-ref/payload-const-ref/auto/default-map", dq, dt);
